@@ -698,8 +698,59 @@ def _sub_index(node):
     return None, None
 
 
+def _eval_vertex_toposort(func):
+    """run a vertex-level scheduler of the shape `V = ...; for (u, v) in top._dag.all_constraints: ...; <sort>; check_schedule(...)`
+    concretely on small graphs; returns (ok, n_graphs, message) or None when the fragment is outside the interpreter"""
+    from sa.listwalk import ListWalk
+    graphs = {
+        'chain': ({1, 2, 3}, {(1, 2), (2, 3)}),
+        'diamond': ({1, 2, 3, 4}, {(1, 2), (1, 3), (2, 4), (3, 4)}),
+        'diamond with a short cut': ({1, 2, 3, 4}, {(1, 2), (2, 3), (3, 4), (1, 4), (1, 3)}),
+        'two sources, reconvergent': ({1, 2, 3, 4, 5}, {(1, 3), (2, 3), (3, 5), (1, 4), (4, 5), (2, 5)}),
+        'independent blocks': ({1, 2, 3}, set()),
+    }
+    shuffles = {'keep': lambda q: None, 'reverse': lambda q: q.reverse(), 'rotate': lambda q: q.append(q.pop(0)) if q else None}
+    n = 0
+    for gname, (V, E) in graphs.items():
+        for sname, sh in shuffles.items():
+            got = {}
+            env = {'top._dag.final_upblks': set(V), 'top.get_all_update_ff': (lambda: set()), 'top._dag.all_constraints': set(E),
+                   'top._sched.update_schedule': None, 'os.environ': {}, 'random.shuffle': sh, 'top': 'TOP'}
+            w = ListWalk(set(), env=env, budget=20000,
+                         funcs={'check_schedule': (lambda *a: got.setdefault('checked', a)), 'dump_dag': (lambda *a: None),
+                                'hasattr': (lambda o, n: True)})
+            w.allowed_imports = ('os', 'random')
+            try:
+                w.block([st for st in func.body if not (isinstance(st, ast.Expr) and isinstance(st.value, ast.Constant))])
+            except AnalysisError:
+                return None
+            except Exception as e:          # noqa: BLE001
+                return (False, n, f"on the {gname} graph the scheduler raises {e.__class__.__name__}: {e}")
+            n += 1
+            sched = w.env.get('top._sched.update_schedule')
+            if not isinstance(sched, list):
+                return None
+            pos = {v: i for i, v in enumerate(sched)}
+            if sorted(sched) != sorted(V):
+                return (False, n, f"on the {gname} graph (queue order: {sname}) the schedule is {sched}: not every block exactly once")
+            badedge = [(u, v) for (u, v) in sorted(E) if pos[u] > pos[v]]
+            if badedge:
+                u, v = badedge[0]
+                return (False, n, f"on the {gname} graph (queue order: {sname}) the schedule is {sched}: block {v} runs before block {u} although "
+                                  f"{u} < {v} is a constraint -- the reader sees the writer's previous value")
+    return (True, n, '')
+
+
 def kahn_check(r, m, FN, func, level, out_pred, require_complete):
     """level: 'vertex' (edges from top._dag.all_constraints filtered by V) or 'scc' (edges = condensation map)"""
+    if level == 'vertex':
+        ev0 = _eval_vertex_toposort(func)
+        if ev0 is not None and not ev0[0]:
+            r.bad(m, FN, "vertex-level schedule evaluated on small graphs", ev0[2], func.lineno)
+            return
+        if ev0 is not None:
+            r.ok(m, FN, f"vertex-level schedule evaluated on {ev0[1]} (graph, queue order) cases: a linear extension with every block once")
+            r.evaluations += ev0[1]
     incs = [n for n in ast.walk(func) if isinstance(n, ast.AugAssign) and isinstance(n.op, ast.Add) and norm(n.value) == '1'
             and isinstance(n.target, ast.Subscript) and isinstance(n.target.value, ast.Name)]
     decs = [n for n in ast.walk(func) if isinstance(n, ast.AugAssign) and isinstance(n.op, ast.Sub) and norm(n.value) == '1'
@@ -713,7 +764,15 @@ def kahn_check(r, m, FN, func, level, out_pred, require_complete):
         incs = [n for n in incs if enclosing(enclosing(n, (ast.For,)), (ast.For,)) is not None and
                 '.items()' in norm(enclosing(enclosing(n, (ast.For,)), (ast.For,)).iter)]
     if len(incs) != 1 or not decs:
-        raise AnalysisError(f"{FN}: cannot locate the in-degree bookkeeping of the {level}-level topological sort")
+        ev = _eval_vertex_toposort(func) if level == 'vertex' else None
+        if ev is not None and ev[0]:
+            r.ok(m, FN, f"{level}-level schedule evaluated on {ev[1]} small graphs: always a linear extension containing every block")
+            return
+        detail = ev[2] if ev is not None else ("in-degrees are not counted once per listed edge (`InD[v] += 1` in the edge loop) although a vertex is "
+                                               "released by one decrement per listed edge: with parallel edges / distinct-predecessor counts a vertex "
+                                               "is released before all its predecessors have run")
+        r.bad(m, FN, f"{level}-level topological sort (Kahn: count one per edge, release at zero)", detail, func.lineno)
+        return
     inc = incs[0]
     D, tgt = _sub_index(inc.target)
     decs = [d for d in decs if d.target.value.id == D]
@@ -1389,6 +1448,31 @@ def rule_constraint_entry(repo):
             (r.ok if ok else r.bad)(m, fq, f"{spelled} -> {vk}_U_constraints[x] gets ({want_sign:+d}, b)",
                                     *([] if ok else [f"`{spelled}` is recorded as {rec if rec else out}: GenDAGPass reads sign +1 as 'the block accessing x runs "
                                                      f"before b' -- the constraint is built the wrong way round (or under the wrong table / key)", f.lineno]))
+    # how `a < b` / `a > b` between U / M / RD / WR objects enters add_constraints: (first, second, is_equal) with first running
+    # BEFORE second -- `a > b` must therefore swap its operands, in every constraint class
+    cm = repo.mod('pymtl3/dsl/ConstraintTypes.py')
+    n_ops = 0
+    for cname in ('FuncConstraint', 'ValueConstraint'):
+        meths = cm.methods(cname)
+        for op, want in (('__lt__', ('self', 'other')), ('__gt__', ('other', 'self'))):
+            g_ = meths.get(op)
+            if g_ is None:
+                r.bad(cm, f"{cname}.{op}", f"{cname}.{op}", f"{cname} no longer defines {op}: `RD(x) {'<' if op == '__lt__' else '>'} U(b)` falls back to Python's "
+                      f"reflected comparison of the other operand", 0)
+                continue
+            n_ops += 1
+            a_self, a_other = [a.arg for a in g_.args.args][:2]
+            rets = [n for n in ast.walk(g_) if isinstance(n, ast.Return) and n.value is not None]
+            ok = len(rets) == 1 and isinstance(rets[0].value, ast.Tuple) and len(rets[0].value.elts) == 3 and \
+                [norm(e) for e in rets[0].value.elts[:2]] == [{'self': a_self, 'other': a_other}[w_] for w_ in want] and \
+                norm(rets[0].value.elts[2]) == 'False'
+            sym = '<' if op == '__lt__' else '>'
+            (r.ok if ok else r.bad)(cm, f"{cname}.{op}", f"a {sym} b -> ({want[0]}, {want[1]}, False)",
+                                    *([] if ok else [f"`a {sym} b` is handed to add_constraints as {norm(rets[0].value) if rets else '?'}: the pair must name the "
+                                                     f"operand that runs FIRST first ({want[0]}, {want[1]}), or every constraint written with `{sym}` is "
+                                                     f"recorded the wrong way round", g_.lineno]))
+    if n_ops < 4:
+        raise AnalysisError("ConstraintTypes: the comparison operators of the constraint classes were not found")
     # the tables the constraints are recorded in are separate objects: `a = b = defaultdict(set)` makes RD and WR constraints one
     # table (every WR(x) < U(b) is then also applied to the readers of x)
     n_tab = 0
@@ -1812,7 +1896,15 @@ def rule_replace_keeps_edges(repo):
     return rule_saved(repo)
 
 
-RULES = [rule_replace_keeps_edges, rule_visitor, rule_funcfold, rule_overlap, rule_pairing, rule_netblk, rule_kahn, rule_greenlet, rule_novar_cycle, rule_cache_scope,
+def rule_bit_and_slice_are_one_node(repo):
+    """x[3] and x[3:4] are the same bit: registered as two objects, a block writing one and a block reading the other get no
+    writer-before-reader edge (the sibling-overlap step excludes "itself" -- by identity, which only works if one bit range is
+    one object) -- decided by C09 (its R-overlap covers slice_overlap / get_sibling_slices together with the slice registry)"""
+    from rules.c09 import rule_overlap as c09_overlap
+    return c09_overlap(repo)
+
+
+RULES = [rule_replace_keeps_edges, rule_bit_and_slice_are_one_node, rule_visitor, rule_funcfold, rule_overlap, rule_pairing, rule_netblk, rule_kahn, rule_greenlet, rule_novar_cycle, rule_cache_scope,
          rule_methods, rule_index_scope, rule_scc_blocks, rule_cache_readonly, rule_constraint_entry, rule_whole_array, rule_const_index, rule_openloop_vertices]
 
 
@@ -1821,6 +1913,10 @@ def _m(name, file, old, new, rule=None, count=1):
 
 
 MUTANTS = [
+    _m('value-constraint-gt-not-swapped', 'pymtl3/dsl/ConstraintTypes.py', "class ValueConstraint:\n  def __init__( self, var ):  self.var = var\n  def __lt__( self, other ):  return (self, other, False)\n  def __gt__( self, other ):  return (other, self, False)\n",
+       "class ValueConstraint:\n  def __init__( self, var ):  self.var = var\n  def __lt__( self, other ):  return (self, other, False)\n  def __gt__( self, other ):  return (self, other, False)\n", 'R-C02-constraint-entry'),
+    dict(name='simple-scheduler-depth-first-preorder', rule='R-kahn', edits=[
+        dict(file=SIMPLE, old="      for v in Es[u]:\n        InD[v] -= 1\n        if not InD[v]:\n          Q.append( v )\n", new="      Q.extend( v for v in Es[u] if v not in update_schedule and v not in Q )\n", count=1)]),
     _m('rd-and-wr-constraint-tables-are-one-object', L2, "    inst._dsl.RD_U_constraints = defaultdict(set)\n    inst._dsl.WR_U_constraints = defaultdict(set)\n", "    inst._dsl.RD_U_constraints = inst._dsl.WR_U_constraints = defaultdict(set)\n", 'R-C02-constraint-entry'),
     dict(name='constraint-sign-default-hoisted-out-of-loop', rule='R-C02-constraint-entry', edits=[
         dict(file=L2, old="        sign = 1 # RD(x) < U is 1, RD(x) > U is -1\n", new="", count=1),
